@@ -30,9 +30,9 @@ def pf_world(it):
             w.cw20_info[name] = dict(total_supply=c.sym('supply_' + name, 128), decimals=6)
 
 
-def create_pair_msg(it, a, b):
+def create_pair_msg(it, a, b, stable=False):
     return it.mkv(FX, 'CreatePair', asset_infos=Agg('array', [ainfo(it, a), ainfo(it, b)]), pool_fees=C16.fee3(it, PN + 'pair::', it.ctx.sym('cp_fee_p', 64), it.ctx.sym('cp_fee_s', 64), 0),
-                  pair_type=it.mkv(PN + 'asset::PairType', 'ConstantProduct'), token_factory_lp=False)
+                  pair_type=it.mkv(PN + 'asset::PairType', 'StableSwap', amp=it.ctx.sym('cp_amp', 64)) if stable else it.mkv(PN + 'asset::PairType', 'ConstantProduct'), token_factory_lp=False)
 
 
 def pair_info_answer(it, addr, a, b):
@@ -64,6 +64,8 @@ def pool_factory(ck):
             # 4. create(b, a): the same unordered pair
             r3 = enter(it, 'terraswap_factory', 'execute', env, mk_info('owner', []), create_pair_msg(it, b, a))
             it.extra['r3'] = r3
+            # 4b. the same unordered pair again, this time as another pool type: still the same asset set
+            it.extra['r3s'] = enter(it, 'terraswap_factory', 'execute', env, mk_info('owner', []), create_pair_msg(it, b, a, stable=True))
             # 5. remove (given in the other order), then the pair can be created again
             r4 = enter(it, 'terraswap_factory', 'execute', env, mk_info('owner', []), it.mkv(FX, 'RemovePair', asset_infos=Agg('array', [ainfo(it, b), ainfo(it, a)])))
             it.extra['r4'] = r4; it.extra['entries_after_remove'] = len(it.world.storage['pair_info'].entries)
@@ -96,6 +98,9 @@ def pool_factory(ck):
             ck.oblige('C19.factory.key.perm.pair.' + tag, p, not (q.variant == 'Ok' and same(q.fields[0].fields[0].payload.fields[1], 'new_pair_addr')), 'the registry finds the pair whatever the order of the assets')
             r3 = p.extra['r3']
             ck.oblige('C19.factory.create.dup.pair.' + tag, p, not (r3.variant == 'Err' and deref(r3.fields[0]).variant == 'ExistingPair'), 'a second pair for the same unordered assets is refused')
+            r3s = p.extra['r3s']
+            ck.oblige('C19.factory.create.dup.pair.other_type.' + tag, p, not (r3s.variant == 'Err' and deref(r3s.fields[0]).variant == 'ExistingPair'),
+                      'a second pair for the same unordered assets is refused also when it is asked for with another pool type (one pair per asset set)')
             ck.oblige('C19.factory.remove_then_create.' + tag, p, not (p.extra['r4'].variant == 'Ok' and p.extra['entries_after_remove'] == 0 and p.ok), 'a removed entry disappears and can be created again')
         ck.require(n >= 1, 'pool factory history %s: incomplete' % tag)
     # same asset twice is refused
@@ -137,6 +142,32 @@ def pool_factory(ck):
         seen = p.extra['seen']
         ck.oblige('C19.pagination.once.pairs', p, sorted(seen) != ['pair_0', 'pair_1', 'pair_2'], 'paging through the registry with any page size returns every entry exactly once')
     ck.require(n >= 1, 'pagination: no complete path')
+    # the pair that ended the first page is removed before the client asks for the next page: the cursor is no longer a registry key
+    def body_page_removed(it):
+        it.extra = {}; c = it.ctx; stored(it); env = mk_env(it, 10**18)
+        lim = c.sym('limit', 32); c.assume(lim >= 1)
+        seen = []; cursor = NONE()
+        for rnd in range(4):
+            q = enter(it, 'terraswap_factory', 'query', env, None, it.mkv(FQ, 'Pairs', start_after=cursor, limit=SOME(lim)))
+            if q.variant != 'Ok': raise PathPruned()
+            page = q.fields[0].fields[0].payload.fields[0].items
+            if not page: break
+            seen += [deref(x.fields[1]).s for x in page]
+            last = page[-1]
+            cursor = SOME(dup(last.fields[0]))
+            if rnd == 0:
+                a, b = keys[int(seen[-1][len('pair_'):])]
+                r = enter(it, 'terraswap_factory', 'execute', env, mk_info('owner', []), it.mkv(FX, 'RemovePair', asset_infos=Agg('array', [ainfo(it, a), ainfo(it, b)])))
+                if r.variant != 'Ok': raise PathPruned()
+        it.extra['seen'] = seen
+        return OK(UNIT())
+    n = 0
+    for p in ck.explore(prog, body_page_removed, 'pool_factory.pagination.removed_cursor', unroll=80):
+        if p.kind != 'ret': continue
+        n += 1
+        ck.oblige('C19.pagination.once.pairs.removed_cursor', p, sorted(p.extra['seen']) != ['pair_0', 'pair_1', 'pair_2'],
+                  'paging on from a cursor whose pair was removed in between still returns every remaining pair exactly once')
+    ck.require(n >= 1, 'pagination with a removed cursor: no complete path')
 
 
 def trio_pagination(ck):
@@ -335,6 +366,32 @@ def pagination_more(ck):
         n += 1
         ck.oblige('C19.pagination.once.vaults', p, sorted(p.extra['seen']) != sorted('vault_' + nm for nm in names), 'paging through the vault registry with any page size returns every vault exactly once')
     ck.require(n >= 1, 'vault pagination: no complete path')
+    # a cursor that is no longer a registry key: the vault that ended the first page is removed before the client asks for the next page
+    def body_v2(it):
+        it.extra = {}; c = it.ctx; C16.vfactory_setup(it); env = mk_env(it, 10**18)
+        it.world.map('vaults', [([Str(nm)], Agg('tuple', [ADDR('vault_' + nm), ainfo(it, ('native', nm))])) for nm in names])
+        lim = c.sym('limit', 32); c.assume(lim >= 1)
+        seen = []; cursor = NONE(); removed = None
+        for rnd in range(4):
+            q = enter(it, 'vault_factory', 'query', env, None, it.mkv(VQ, 'Vaults', start_after=cursor, limit=SOME(lim)))
+            if q.variant != 'Ok': raise PathPruned()
+            page = q.fields[0].fields[0].payload.fields[0].items
+            if not page: break
+            seen += [deref(x.fields[0]).s for x in page]
+            cursor = SOME(dup(page[-1].fields[2]))
+            if rnd == 0:
+                removed = seen[-1][len('vault_'):]
+                r = enter(it, 'vault_factory', 'execute', env, mk_info('owner', []), it.mkv(C16.VFX, 'RemoveVault', asset_info=ainfo(it, ('native', removed))))
+                if r.variant != 'Ok': raise PathPruned()
+        it.extra['seen'] = seen
+        return OK(UNIT())
+    n = 0
+    for p in ck.explore(progv, body_v2, 'vault_factory.pagination.removed_cursor', unroll=80):
+        if p.kind != 'ret': continue
+        n += 1
+        ck.oblige('C19.pagination.once.vaults.removed_cursor', p, sorted(p.extra['seen']) != sorted('vault_' + nm for nm in names),
+                  'paging on from a cursor whose vault was removed in between still returns every remaining vault exactly once (the cursor need not be a registry key)')
+    ck.require(n >= 1, 'vault pagination with a removed cursor: no complete path')
     lps = [('native', 'uatom'), ('cw20', 'lp_token_a'), ('native', 'uluna'), ('cw20', 'lp_token_b')]
     def body_i(it):
         it.extra = {}; c = it.ctx; C16.ifactory_setup(it); env = mk_env(it, 10**18)
